@@ -679,6 +679,22 @@ def c10_validation(tier, seed):
             m = None
         if m is not None:
             shapes.append(m)
+    # an ill-defined sub-proposition whose id is ALSO used by a plain variable with the same bounds elsewhere (the leaf must
+    # not hide the sub-proposition from any check), and cycles closed through references with fixed bounds
+    def V(i, b):
+        return puan.variable(i, b)
+    for mk in (lambda: pg.All(pg.Any("N", "y", variable="C"), pg.Any("x", "x", variable="N"), variable="A"),
+               lambda: pg.All(pg.Any("x", "x", variable="N"), pg.Any("N", "y", variable="C"), variable="Z"),
+               lambda: pg.All(pg.Any("N", "y", variable="C"), pg.Any(pg.Any("p", "q", variable="D"), pg.Any("q", "r", variable="D"), variable="N"), variable="A"),
+               lambda: pg.All(V("A", (1, 1)), "x", variable=V("A", (1, 1))),
+               lambda: pg.All(V("A", (0, 0)), "x", variable=V("A", (0, 0))),
+               lambda: pg.All(pg.Any(V("A", (1, 1)), "y", variable="B"), "x", variable=V("A", (1, 1))),
+               lambda: pg.All(pg.Not(pg.Any(V("A", (1, 1)), "y", variable="B")), "x", variable=V("A", (1, 1))),
+               lambda: pg.All(pg.Any(V("Q", (0, 0)), "y", variable=V("P", (0, 0))), pg.Any(V("P", (0, 0)), "z", variable=V("Q", (0, 0))), variable="T")):
+        try:
+            shapes.append(mk())
+        except Exception:
+            pass
     for m in shapes:
         errs = m.errors()
         r["evaluations"] += 1
@@ -897,10 +913,21 @@ def c08_reduce_e2e(tier, seed):
                 ch.append(build(k, rename, bmap, dv))
             else:
                 ch.append(puan.variable(rename(k[0]), bmap.get(k[1], k[1])))
-        return pg.AtLeast(val + (dv if kind == "top" else 0), ch, variable=rename(vid), sign=spec_sign[id(spec)])
+        own = spec_own.get(id(spec))
+        var = rename(vid) if own is None else puan.variable(rename(vid), own)
+        return pg.AtLeast(val + (dv if kind == "top" else 0), ch, variable=var, sign=spec_sign[id(spec)])
+
+    def ref_fixed(node, env):
+        """reference with the override clause: a sub-proposition whose own variable is fixed takes that constant"""
+        if is_var(node):
+            return env[node.id]
+        if node.bounds.constant is not None:
+            return int(node.bounds.constant)
+        return 1 if node.sign * sum(ref_fixed(c, env) for c in node.propositions) >= node.value else 0
 
     for _ in range(n):
         spec_sign = {}
+        spec_own = {}
         names = iter(["red apple", "green pear", "b c", "d", "e f", "g", "h i", "j", "k l", "m"])
         bpal = [(0, 1), (0, 1), (0, 3), (-1, 0), (1, 1), (0, 0), (2, 2), (-2, 2)]
 
@@ -916,6 +943,8 @@ def c08_reduce_e2e(tier, seed):
                     break
             sp = ("top" if top else "sub", next(names), rng.randint(0, 2), kids)
             spec_sign[id(sp)] = rng.choice([1, 1, -1])
+            if not top and rng.random() < 0.3:
+                spec_own[id(sp)] = rng.choice([(0, 0), (1, 1)])      # a sub-proposition fixed by its own variable's bounds
             return sp
         try:
             spec = mk(1, True)
@@ -946,7 +975,7 @@ def c08_reduce_e2e(tier, seed):
             for env in assignments(free, rng, 24):
                 full = dict(env)
                 full.update(fixed)
-                want = ref_truth(m, full)
+                want = ref_fixed(m, full)
                 if is_var(red):
                     got = red.bounds.constant if red.bounds.constant is not None else env.get(red.id)
                 else:
